@@ -224,18 +224,18 @@ static inline void vf_mask_long_payloads(const vf_doc *d, uint8_t *mask)
 /* a < b < 127-byte name < 128-byte name: the last one needs a 2-byte length prefix, the third is the longest with a 1-byte prefix */
 static const vf_name vf_names_abL[] = { { (const uint8_t *) "a", 1 }, { (const uint8_t *) "b", 1 }, { (const uint8_t *) VF_LNAME128, 127 }, { (const uint8_t *) VF_LNAME128, 128 } };
 
-/* a < b < 32768-byte name: the third one needs a 4-byte length prefix */
-static uint8_t vf_hname32k[32768];
+/* a < b < huge name of `len` bytes (default 32768: the smallest that needs a 4-byte length prefix; 65537: more than 16 bits) */
+static uint8_t vf_hname_buf[70001];
 static vf_name vf_names_abH[3];
-static inline const vf_name *vf_names_abH_get(void)
+static inline const vf_name *vf_names_abH_len(size_t len)
 {
-    if (!vf_hname32k[0]) {
-        memset(vf_hname32k, 'h', sizeof vf_hname32k);
-        vf_names_abH[0] = (vf_name) { (const uint8_t *) "a", 1 }; vf_names_abH[1] = (vf_name) { (const uint8_t *) "b", 1 };
-        vf_names_abH[2] = (vf_name) { vf_hname32k, sizeof vf_hname32k };
-    }
+    if (len > 70000) vf_die("huge name too long");
+    memset(vf_hname_buf, 'h', sizeof vf_hname_buf);
+    vf_names_abH[0] = (vf_name) { (const uint8_t *) "a", 1 }; vf_names_abH[1] = (vf_name) { (const uint8_t *) "b", 1 };
+    vf_names_abH[2] = (vf_name) { vf_hname_buf, len };
     return vf_names_abH;
 }
+static inline const vf_name *vf_names_abH_get(void) { return vf_names_abH_len(32768); }
 
 /* ---------------------------------------------------------------- sibling family
  * Every PAIR (level >= 1) and every TRIPLE (level >= 2) of small sibling subtrees under an object root (member names "" < "a" < "b"
